@@ -142,6 +142,24 @@ func init() {
 		"encoding/binary.Size"} {
 		summaries[m] = pure
 	}
+	// iterators: maps.Keys(m) / slices.Values(s) build a read-only sequence; slices.Sorted(seq) /
+	// slices.Collect(seq) gather it into a fresh slice. Only for element types without pointers —
+	// with pointers the fresh slice would alias what the map holds, which is not modelled here, and
+	// the call stays unresolved.
+	for _, m := range []string{"maps.Keys", "maps.Values", "maps.All", "slices.Values", "slices.All", "slices.Backward", "slices.Chunk"} {
+		summaries[m] = pure
+	}
+	for _, m := range []string{"slices.Sorted", "slices.Collect", "slices.SortedFunc", "slices.SortedStableFunc"} {
+		summaries[m] = func(c *fc, site ssa.CallInstruction, callee *ssa.Function, args []ssa.Value) {
+			if v := site.Value(); v != nil {
+				if sl, ok := v.Type().Underlying().(*types.Slice); ok && hasPointers(sl.Elem()) {
+					c.a.Unresolved = append(c.a.Unresolved, Unresolved{Instr: site, Fn: c.fn, Callee: callee.String(), Reason: "collects a sequence of pointer-carrying elements: aliasing with the source is not modelled"})
+					return
+				}
+			}
+			c.freshResults(site, callee)
+		}
+	}
 	// io ----------------------------------------------------------------------------------
 	for _, m := range []string{"io.ReadFull", "io.ReadAtLeast"} {
 		summaries[m] = func(c *fc, site ssa.CallInstruction, callee *ssa.Function, args []ssa.Value) {
@@ -333,4 +351,22 @@ func (c *fc) lateCall(site ssa.CallInstruction, m *ssa.Function, recv Loc) {
 	if !a.Reach[FnCtx{m, c.ctx}] {
 		g.lateFuncs = append(g.lateFuncs, FnCtx{m, c.ctx})
 	}
+}
+
+// hasPointers: values of type t can hold a reference to other memory.
+func hasPointers(t types.Type) bool {
+	switch u := t.Underlying().(type) {
+	case *types.Basic:
+		return u.Kind() == types.UnsafePointer
+	case *types.Array:
+		return hasPointers(u.Elem())
+	case *types.Struct:
+		for i := 0; i < u.NumFields(); i++ {
+			if hasPointers(u.Field(i).Type()) {
+				return true
+			}
+		}
+		return false
+	}
+	return true
 }
